@@ -19,6 +19,15 @@ def generate(prop_module, only=None):
     for mk in prop_module.UNITS:
         u = mk()
         if only and only not in u.name: continue
+        if hasattr(u, 'run') and not hasattr(u, 'body'):
+            # static frame analysis unit: each finding-free flow question is an obligation discharged by the flow analysis itself
+            from z3 import BoolVal
+            res_ = u.run(REPO_SRC)
+            for name, ok, detail in res_:
+                out.append((f"{u.name}/{name}", Obligation(name, [], BoolVal(bool(ok)), (), 'frame', extra=detail), []))
+            info['units'].append(dict(name=u.name, kind='static-flow', obligations=len(res_)))
+            info['functions'] |= set(getattr(u.run, 'functions', []))
+            continue
         if isinstance(u, Lemma):
             for label, hyps, goal in u.items:
                 out.append((f"{u.name}/lemma/{label}", Obligation(label, list(hyps), goal, (), 'lemma'), u.axioms))
